@@ -85,7 +85,7 @@ def _register_capabilities_hooks(converter: cattrs.Converter) -> cattrs.Converte
             return None
         if isinstance(object_, (bool, int, str, float)):
             return object_
-        if "id" in object_:
+        if "id" in object_ or "documentSelector" in object_:
             return converter.structure(
                 object_, lsp_types.DeclarationRegistrationOptions
             )
@@ -112,7 +112,7 @@ def _register_capabilities_hooks(converter: cattrs.Converter) -> cattrs.Converte
             return None
         if isinstance(object_, (bool, int, str, float)):
             return object_
-        if "id" in object_:
+        if "id" in object_ or "documentSelector" in object_:
             return converter.structure(
                 object_, lsp_types.TypeDefinitionRegistrationOptions
             )
@@ -130,7 +130,7 @@ def _register_capabilities_hooks(converter: cattrs.Converter) -> cattrs.Converte
             return None
         if isinstance(object_, (bool, int, str, float)):
             return object_
-        if "id" in object_:
+        if "id" in object_ or "documentSelector" in object_:
             return converter.structure(
                 object_, lsp_types.ImplementationRegistrationOptions
             )
@@ -189,7 +189,7 @@ def _register_capabilities_hooks(converter: cattrs.Converter) -> cattrs.Converte
             return None
         if isinstance(object_, (bool, int, str, float)):
             return object_
-        if "id" in object_:
+        if "id" in object_ or "documentSelector" in object_:
             return converter.structure(
                 object_, lsp_types.DocumentColorRegistrationOptions
             )
@@ -243,7 +243,7 @@ def _register_capabilities_hooks(converter: cattrs.Converter) -> cattrs.Converte
             return None
         if isinstance(object_, (bool, int, str, float)):
             return object_
-        if "id" in object_:
+        if "id" in object_ or "documentSelector" in object_:
             return converter.structure(
                 object_, lsp_types.FoldingRangeRegistrationOptions
             )
@@ -261,7 +261,7 @@ def _register_capabilities_hooks(converter: cattrs.Converter) -> cattrs.Converte
             return None
         if isinstance(object_, (bool, int, str, float)):
             return object_
-        if "id" in object_:
+        if "id" in object_ or "documentSelector" in object_:
             return converter.structure(
                 object_, lsp_types.SelectionRangeRegistrationOptions
             )
@@ -279,7 +279,7 @@ def _register_capabilities_hooks(converter: cattrs.Converter) -> cattrs.Converte
             return None
         if isinstance(object_, (bool, int, str, float)):
             return object_
-        if "id" in object_:
+        if "id" in object_ or "documentSelector" in object_:
             return converter.structure(
                 object_, lsp_types.CallHierarchyRegistrationOptions
             )
@@ -297,7 +297,7 @@ def _register_capabilities_hooks(converter: cattrs.Converter) -> cattrs.Converte
             return None
         if isinstance(object_, (bool, int, str, float)):
             return object_
-        if "id" in object_:
+        if "id" in object_ or "documentSelector" in object_:
             return converter.structure(
                 object_, lsp_types.LinkedEditingRangeRegistrationOptions
             )
@@ -313,7 +313,7 @@ def _register_capabilities_hooks(converter: cattrs.Converter) -> cattrs.Converte
     ]:
         if object_ is None:
             return None
-        if "id" in object_:
+        if "id" in object_ or "documentSelector" in object_:
             return converter.structure(
                 object_, lsp_types.SemanticTokensRegistrationOptions
             )
@@ -331,7 +331,7 @@ def _register_capabilities_hooks(converter: cattrs.Converter) -> cattrs.Converte
             return None
         if isinstance(object_, (bool, int, str, float)):
             return object_
-        if "id" in object_:
+        if "documentSelector" in object_:
             return converter.structure(object_, lsp_types.MonikerRegistrationOptions)
         else:
             return converter.structure(object_, lsp_types.MonikerOptions)
@@ -347,7 +347,7 @@ def _register_capabilities_hooks(converter: cattrs.Converter) -> cattrs.Converte
             return None
         if isinstance(object_, (bool, int, str, float)):
             return object_
-        if "id" in object_:
+        if "id" in object_ or "documentSelector" in object_:
             return converter.structure(
                 object_, lsp_types.TypeHierarchyRegistrationOptions
             )
@@ -365,7 +365,7 @@ def _register_capabilities_hooks(converter: cattrs.Converter) -> cattrs.Converte
             return None
         if isinstance(object_, (bool, int, str, float)):
             return object_
-        if "id" in object_:
+        if "id" in object_ or "documentSelector" in object_:
             return converter.structure(
                 object_, lsp_types.InlineValueRegistrationOptions
             )
@@ -383,7 +383,7 @@ def _register_capabilities_hooks(converter: cattrs.Converter) -> cattrs.Converte
             return None
         if isinstance(object_, (bool, int, str, float)):
             return object_
-        if "id" in object_:
+        if "id" in object_ or "documentSelector" in object_:
             return converter.structure(object_, lsp_types.InlayHintRegistrationOptions)
         else:
             return converter.structure(object_, lsp_types.InlayHintOptions)
@@ -407,7 +407,7 @@ def _register_capabilities_hooks(converter: cattrs.Converter) -> cattrs.Converte
     ]:
         if object_ is None:
             return None
-        if "id" in object_:
+        if "id" in object_ or "documentSelector" in object_:
             return converter.structure(object_, lsp_types.DiagnosticRegistrationOptions)
         else:
             return converter.structure(object_, lsp_types.DiagnosticOptions)
